@@ -4,8 +4,8 @@ CONSTANTS
   MaxNeg = 0
   MaxPos = 0
   NCols = 6
-  Datasets = {"all", "wrap", "neg", "pos", "nonneg", "single", "empty", "ties", "ties0"}
-  Vias = {"set", "setd", "imp", "imp1d"}
+  Datasets = {"all", "wrap", "single", "empty", "ties0"}
+  Vias = {"set", "imp"}
   Classes = {"W"}
   Depth = 2
   Sample = FALSE
